@@ -34,7 +34,15 @@ def run(ctx):
     ctx.rule('R04.5', 'batch VisualSORT: own-area shares are computed per scene, from that scene\'s boxes only')
     ctx.floor('R04.5', own_area_per_scene(ctx, 'R04.5'), 2)
     ctx.rule('R04.7', 'the idle listing of a scene excludes expired tracks whatever the (cross-scene) collection timing')
-    ctx.floor('R04.7', T.rule_observers(ctx, 'R04.7', parts=('idle',)), 8)
+    ctx.floor('R04.7', T.rule_observers(ctx, 'R04.7', parts=('idle', 'wasted')), 9)
+    ctx.rule('R04.8', 'a batch files every detection under its own scene: per-scene entries are selected and created by '
+                      'scene id, never by position in the batch')
+    ctx.floor('R04.8', T.rule_batch_request(ctx, 'R04.8'), 2)
+    import votinglib as V
+    ctx.rule('R04.9', 'tracks of other scenes only add empty columns to the assignment: the winners always come from the '
+                      'one maximising assignment over the id-indexed matrix (no shortcut that depends on how many tracks '
+                      'the whole store holds)')
+    ctx.floor('R04.9', V.rule_hungarian(ctx, 'R04.9'), 3)
     ctx.rule('R04.6', 'scenes voted in parallel draw ids from one counter, atomically (a clash kills a scene\'s voting thread)')
     from props import C01
     C01.shared_counter(ctx, 'R04.6')
